@@ -64,6 +64,11 @@ __tok_spec(const char *fp, const char **ep)
 
 next:
 	switch (*++fp) {
+	case '\0':
+		/* lone % at the end of the format,
+		 * don't step over the terminator */
+		fp--;
+		goto out;
 	default:
 		goto out;
 	case 'F':
